@@ -21,6 +21,7 @@ func init() {
 		c12TeardownOrdering(c)
 		c12CallbackBeforeTeardown(c)
 		// bounded completion: a closing session still drains its buffer and still times out
+		pingBody(c, "C12.10")
 		c03AdmittedStates(c, "C12.6", map[string]bool{"flush/Send": true, "resetPingTimeout$callback/OnClose(ping timeout)": true, "Close/closeTransport(discard)": true})
 	})
 }
